@@ -17,19 +17,38 @@ import (
 	"time"
 )
 
+// The address universe, in protocol order: t0 t1 t2 (tcp, HTTP app), m0 (tcp, admin endpoint),
+// u0 u1 (unix, HTTP app), m1 (unix, admin endpoint).
 const (
-	nTCP  = 3
-	nUnix = 2
+	nTCP  = 4
+	nUnix = 3
 	nAddr = nTCP + nUnix
+	adm0  = 3 // m0
+	adm1  = 6 // m1
 )
 
 const soReusePort = 0xf // SO_REUSEPORT on linux (all architectures caddy builds listen_unix.go for here)
 
-var addrNames = [nAddr]string{"t0", "t1", "t2", "u0", "u1"}
+var addrNames = [nAddr]string{"t0", "t1", "t2", "m0", "u0", "u1", "m1"}
 
+// httpAddrs are the addresses the HTTP app may listen on.
+var httpAddrs = []int{0, 1, 2, 4, 5}
+
+func isAdmin(a int) bool { return a == adm0 || a == adm1 }
+
+// addrIndex: index of an HTTP listener address name (admin addresses are not accepted).
 func addrIndex(name string) int {
 	for i, n := range addrNames {
-		if n == name {
+		if n == name && !isAdmin(i) {
+			return i
+		}
+	}
+	return -1
+}
+
+func adminIndex(name string) int {
+	for i, n := range addrNames {
+		if n == name && isAdmin(i) {
 			return i
 		}
 	}
@@ -201,7 +220,15 @@ func (e *env) get(a int, path string, timeout time.Duration) (string, int, strin
 	}
 	defer c.Close()
 	c.SetDeadline(time.Now().Add(timeout))
-	if _, err := io.WriteString(c, "GET "+path+" HTTP/1.0\r\nHost: verif\r\n\r\n"); err != nil {
+	host := "verif"
+	if isAdmin(a) {
+		// the admin endpoint checks the Host header against its listen address (tcp only)
+		path = "/verif_c02" + path
+		if !isUnix(a) {
+			host = "127.0.0.1:" + strconv.Itoa(e.ports[a])
+		}
+	}
+	if _, err := io.WriteString(c, "GET "+path+" HTTP/1.0\r\nHost: "+host+"\r\n\r\n"); err != nil {
 		return classifyErr(err), -1, "write: " + err.Error()
 	}
 	b, err := io.ReadAll(c)
